@@ -86,13 +86,22 @@ def riscv_state(mode, cached, pol="lru"):
     return sim
 
 
+def shared_tables():
+    """class-level tables the inspection functions consult: shared by every simulation of the process, so a call that
+    edits one in place changes later results of this and of every other simulation"""
+    from architecture_simulator.isa.toy.toy_micro_program import MicroProgram
+    return snapshot(MicroProgram._instr_bool_list_mapping, MicroProgram._instr_mp_mapping, MicroProgram._signal_names)
+
+
 def purity(sim, fn):
     before = snapshot(sim, ignore=TIMER)
+    tables = shared_tables()
     r1 = getattr(sim, fn)()
     mid = snapshot(sim, ignore=TIMER)
     check_same("state_unchanged", before, mid)
     r2 = getattr(sim, fn)()
     check_same("state_unchanged_by_repetition", before, snapshot(sim, ignore=TIMER))
+    check_same("shared_tables_unchanged", tables, shared_tables())
     if fn != "get_performance_metrics_str":
         check_same("same_answer_when_repeated", snapshot(r1), snapshot(r2))
     # and a later step behaves as if the function had never been called: it starts from the identical heap (above)
